@@ -427,13 +427,11 @@ func splitEventOracle(tagov int, src *girc.Source, cmd string, params []string, 
 	} else {
 		text = params[n-1]
 	}
-	if len(pieces) == 1 && same(pieces[0]) {
+	unsplit := len(pieces) == 1 && same(pieces[0])
+	if unsplit && (full <= max || head+wrap+1 > max) {
 		// left alone: fine when it fits, or when command and target (and the CTCP frame)
 		// leave no room for text at all
-		if full <= max || head+wrap+1 > max {
-			return ""
-		}
-		return fmt.Sprintf("event-unsplit: %d bytes against a limit of %d and room for %d bytes of text", full, max, max-head-wrap)
+		return ""
 	}
 	var payloads []string
 	for i, p := range pieces {
@@ -455,6 +453,9 @@ func splitEventOracle(tagov int, src *girc.Source, cmd string, params []string, 
 		}
 		payloads = append(payloads, last)
 		if l := splitWireLen(tagov, cmd, p.Params); l > max && !(max-head-wrap < utf8.UTFMax && utf8.RuneCountInString(last) == 1) {
+			if unsplit {
+				return fmt.Sprintf("event-unsplit: %d bytes against a limit of %d and room for %d bytes of text", full, max, max-head-wrap)
+			}
 			return fmt.Sprintf("event-too-long: piece %d is %d bytes, limit %d", i, l, max)
 		}
 	}
@@ -528,6 +529,15 @@ func splitEventFixed() []Case {
 			splitEventCase(0, nil, "PRIVMSG", max, []string{"#chan", strings.Repeat("\u65e5\u672c", 100)}),
 		)
 	}
+	// one character that is wider than the room left (1..3 bytes): sent alone, over the limit
+	for max := 10; max <= 16; max++ {
+		out = append(out,
+			splitEventCase(0, nil, "NOTICE", max, []string{"#a", "\u6587"}),
+			splitEventCase(0, nil, "NOTICE", max, []string{"#a", "\u6587\u6587 \u6587"}),
+			splitEventCase(0, nil, "NOTICE", max, []string{"#a", "\U0001F600"}),
+			splitEventCase(0, nil, "PRIVMSG", max+12, []string{"#a", "\x01ACTION \u6587\x01"}),
+		)
+	}
 	return out
 }
 
@@ -549,6 +559,12 @@ func init() {
 				max = w + len(cmd) + len(target) + 3
 			}
 			text := splitText(r, splitClamp(w, 1, 500), splitMode(r))
+			if r.Intn(12) == 0 {
+				// hardly any room: 0..5 bytes for text, short multi-byte words
+				w = r.Intn(6)
+				max = w + len(cmd) + len(target) + 3
+				text = splitText(r, 3, 0)
+			}
 			switch r.Intn(10) {
 			case 0, 1, 2:
 				tag := Pick(r, "ACTION", "ACTION", "PING", "VERSION", "X1", "action", "A-B")
@@ -1116,6 +1132,12 @@ func init() {
 			op := Pick(r, "msg", "msg", "notice", "action")
 			target := splitTarget(r)
 			w := splitClamp(mel-len(target)-10, 1, 400)
+			if r.Intn(10) == 0 {
+				// hardly any room for text: -2..6 bytes after "PRIVMSG target :"
+				room := r.Intn(9) - 2
+				lines = [][]string{{"me", "LINELEN=" + strconv.Itoa(117+len("PRIVMSG ")+len(target)+2+room), t}}
+				w = 3
+			}
 			c := append(Case{op}, splitLinesArgs(lines)...)
 			return append(c, target, splitText(r, w, splitMode(r)))
 		},
